@@ -8,6 +8,8 @@ SCLS = 'beartype/_check/forward/scope/fwdscopecls.py'
 SMAKE = 'beartype/_check/forward/scope/fwdscopemake.py'
 RES = 'beartype/_check/forward/fwdresolve.py'
 COERCE = 'beartype/_check/convert/_convcoerce.py'
+FABC = 'beartype/_check/forward/reference/_cls/fwdrefabc.py'
+FPROXY = 'beartype/_check/forward/reference/fwdrefproxy.py'
 FLOOR_APPLIED = 14
 PROP = '__resolved_hint_beartype__'
 
@@ -132,6 +134,14 @@ VARIANTS = {
         lambda n: (setattr(n, 'value', expr('cls.__resolved_hint_beartype__')) or n), scope='BeartypeForwardRefMeta.__subclasscheck__'), 'C07.R7'),
     'referent-type-memoised-before-validation': tseeded(META, _cache_type_first, 'C07.R7',
                                                         'a non-isinstanceable referent is remembered: the second check no longer raises'),
+    # ---- R4 (class body of the innermost class) / R8 derived proxies ----------------------------------------------------------
+    'method-scope-from-root-class-body': tseeded(SMAKE, lambda t: replace_where(
+        t, lambda n: isinstance(n, ast.Call) and ast.unparse(n) == 'get_type_locals(cls_curr)', lambda n: expr('get_type_locals(cls_root)'),
+        scope='make_scope_forward_decor_curr'), 'C07.R4', 'methods of a nested class resolve names against the outer class body (seeded C07-1)'),
+    'subscripted-proxy-forgets-enclosing-callable': tseeded(FABC, lambda t: replace_where(
+        t, lambda n: isinstance(n, ast.keyword) and n.arg == 'func_local_parent_codeobj_weakref', lambda n: ast.keyword(arg='func_local_parent_codeobj_weakref', value=expr('None')),
+        scope='BeartypeForwardRefSubbableABC.__class_getitem__'), 'C07.R8', "'Box[int]' with Box defined later in the same function never resolves (seeded C07-3)"),
+    'n-proxy-factory-local-renamed': tneutral(FPROXY, lambda t: _rename(t, '_proxy_hint_ref', 'ref_proxy', 'proxy_type')),
     # ---- neutral -------------------------------------------------------------------------------------------------------------
     'n-roundtrip-fwdrefmeta': roundtrip(META),
     'n-roundtrip-fwdscopemake': roundtrip(SMAKE),
